@@ -54,7 +54,7 @@ def nontrivial(row):
 
 def run_erg(erg, env, text, d, name):
     p = os.path.join(d, name)
-    with open(p, "w") as f:
+    with open(p, "w", encoding="utf-8") as f:
         # warnings are printed (on stdout) while compiling; everything after the marker line is the program's own output
         f.write('print! "@@RUN@@"\n' + text)
     rc, out, err = core.sh([erg, p], env=env, timeout=120, cwd=d)
@@ -83,7 +83,10 @@ def post(ctx, rows, res, bindir):
     stats = {"programs": 0, "renames_run": 0, "skipped_known_class_binders": 0, "original_ok": 0, "original_rejected": 0}
     # spec column per case id (the driver lists the binders whose ranges drifted)
     lim = 150 if ctx.tier == "thorough" else 8
-    td = tempfile.mkdtemp(prefix="ergverif-c30-")
+    # scratch inside the harness' target directory (nothing outside /verif / the scratch root is needed)
+    tbase = os.path.join(core.harness_dir("harness-els"), "target", "scratch")
+    os.makedirs(tbase, exist_ok=True)
+    td = tempfile.mkdtemp(prefix="c30-run-", dir=tbase)
     work = []
     for r in rows[:lim]:
         m = re.search(r"\(src " + STR + r"\)", r[1])
@@ -92,7 +95,7 @@ def post(ctx, rows, res, bindir):
         src = unq(m.group(1))
         new = unq(re.search(r"\(new " + STR + r"\)", r[1]).group(1))
         toks = re.findall(r"\(t " + STR + r" (\d+) (\d+) (\d+)\)", r[1])
-        binders = dict((int(b), int(t)) for b, t in re.findall(r"\((\d+) (\d+)\)", re.search(r"\(binders((?: \(\d+ \d+\))*)\)", r[1]).group(1)))
+        binders = dict((int(b), int(t)) for b, t in re.findall(r"\((\d+) (\d+)\)", (re.search(r"\(binders((?: \(\d+ \d+\))*) ?\)", r[1]) or re.search(r"()", "")).group(1)))
         drifted_toks = {i for i, t in enumerate(toks) if t[2] != t[3]}
         edited = [(int(b), unq(t)) for b, t in re.findall(r"\(edited (\d+) " + STR + r"\)", r[2])]
         work.append((r, src, new, toks, binders, drifted_toks, edited))
